@@ -102,6 +102,27 @@ Q_C07 == {[BaseQ EXCEPT !.items = its, !.distinct = di, !.hastop = ht, !.top = 1
 Q_C07join == {[BaseQ EXCEPT !.items = its, !.distinct = di, !.join = "left", !.jkeys = << <<1, 1>> >>] :
                 its \in SeqsBetween({E(Fa(1)), E(Fb(1)), E(Fb(3)), <<"bstar">>, <<"star">>, <<"as", E(Fb(2)), "bb">>}, 1, 2), di \in {"none", "count"}}
 
+\* ---------------------------------------------------------------- C08: hostile literal contents (keywords, metacharacters, variable-like text, quotes)
+T(cs) == <<"lit", cs>>
+HL_kw    == T(<<32, 119, 104, 101, 114, 101, 32, 115, 101, 108, 101, 99, 116, 32>>)             \* " where select "
+HL_order == T(<<111, 114, 100, 101, 114, 32, 98, 121, 32, 97, 49, 32, 100, 101, 115, 99>>)      \* "order by a1 desc"
+HL_meta  == T(<<42, 44, 61, 35, 59, 40, 41, 91, 93>>)                                           \* "*,=#;()[]"
+HL_vars  == T(<<97, 49, 32, 98, 49, 32, 78, 82, 32, 97, 91, 49, 93>>)                           \* "a1 b1 NR a[1]"
+HL_quote == T(<<105, 116, 39, 115, 32, 34, 113, 34, 32, 92>>)                                   \* it's "q" \
+HL_join  == T(<<32, 108, 101, 102, 116, 32, 106, 111, 105, 110, 32, 98, 32, 111, 110, 32>>)     \* " left join b on "
+HL_limit == T(<<108, 105, 109, 105, 116, 32, 49, 59>>)                                          \* "limit 1;"
+HL_with  == T(<<119, 105, 116, 104, 32, 40, 104, 101, 97, 100, 101, 114, 41>>)                  \* "with (header)"
+HostileLits == {HL_kw, HL_order, HL_meta, HL_vars, HL_quote, HL_join, HL_limit, HL_with}
+Q_C08 == {[BaseQ EXCEPT !.items = <<E(l), E(Fa(1))>>] : l \in HostileLits}
+         \cup {[BaseQ EXCEPT !.items = <<E(<<"cat", Fa(1), l>>)>>, !.where = <<"ne", Fa(2), l>>, !.order = << <<"cat", Fa(2), l>> >>, !.desc = TRUE] : l \in HostileLits}
+         \cup {[BaseQ EXCEPT !.items = <<E(Fa(2)), <<"unnest", <<"lits", <<l[2], HL_meta[2]>> >> >> >>, !.hastop = TRUE, !.top = 3] : l \in HostileLits}
+         \cup {[BaseQ EXCEPT !.kind = "update", !.assign = << <<1, l>>, <<2, <<"cat", Fa(1), l>> >> >>, !.where = <<"eq", Fa(1), L(97)>>] : l \in HostileLits}
+         \cup {[BaseQ EXCEPT !.items = << <<"agg", "COUNT", <<"int", 1>> >>, E(l)>>, !.hasgroup = TRUE, !.group = << <<"cat", Fa(1), l>> >>] : l \in HostileLits}
+Q_C08join == {[BaseQ EXCEPT !.items = <<E(l), E(Fb(2))>>, !.join = j, !.jkeys = << <<1, 1>> >>, !.where = <<"ne", Fb(2), l>>, !.distinct = "uniq"] : l \in HostileLits, j \in {"inner", "left"}}
+\* D9: a literal containing an `a.ident` token with a header (acknowledged limitation: variables are searched inside literals)
+HL_attr == T(<<97, 46, 122, 122>>)                                                              \* "a.zz"
+Q_C08attr == {[BaseQ EXCEPT !.items = <<E(HL_attr), E(Fa(1))>>]}
+
 \* ---------------------------------------------------------------- C13: type-agnostic queries over string cells, every front-end
 Q_C13 == {[BaseQ EXCEPT !.items = <<E(Fa(1)), E(Fa(2))>>],
           [BaseQ EXCEPT !.items = <<E(Fa(2)), E(L(120)), E(<<"cat", Fa(1), Fa(2)>>)>>, !.where = <<"eq", Fa(1), L(97)>>],
